@@ -304,6 +304,24 @@ class Runner:
                 elif out.is_panic():
                     self.bad("reply", "partial-block reply raised %s" % out.exc_name)
                 return
+            elif how == "cut":
+                # authentic reply whose scoped PDU lost its last k octets before the agent encrypted it (AES-CFB is a stream
+                # mode, so this is simply a ciphertext k octets short): the inner lengths still announce the whole PDU, the
+                # missing octets were never received - a value delivered here was completed from somewhere else
+                n, k = act[3], act[4]
+                oid = req.oids[0] + (1,) if req.oids else (1, 3, 6, 1, 2, 1, 1, 1, 0)
+                payload = bytes((i * 7 + 3) & 0xFF for i in range(n))
+                pdu = rb.build_pdu(rb.PDU_RESPONSE, req.request_id, 0, 0, [(oid, rb.enc_octets(payload))])
+                scoped = rb.build_scoped(req.engine_id or s.cfg.engine_id, b"", pdu)
+                rep = drivers.seal_reply(s.cfg, req.msg_id, req.engine_id or s.cfg.engine_id, req.boots, req.time, scoped[:-k])
+                w.inject(rep)
+                out = w.recv(op, s.last_iter)
+                self.api_calls += 1
+                if out.kind == "ok":
+                    self.bad("reply", "a reply whose scoped PDU arrived %d octets short was delivered: %r" % (k, out.brief()))
+                elif out.is_panic():
+                    self.bad("reply", "short reply raised %s" % out.exc_name)
+                return
             elif how == "octets":
                 oid = req.oids[0] + (1,) if req.oids else (1, 3, 6, 1, 2, 1, 1, 1, 0)
                 payload = bytes((i * 7 + 3) & 0xFF for i in range(act[3]))
